@@ -45,7 +45,13 @@ def array_support(func):
                 vals.append(iterator(v, *args[1:], **kwargs))
 
             if isinstance(args[0], np.ndarray):
-                vals = np.array(vals)
+                vals_array = np.array(vals)
+                if vals_array.dtype.kind == 'f':
+                    # integers beyond the int64 range are kept as python integers (not converted to float)
+                    vals_object = np.array(vals, dtype=object)
+                    if all(isinstance(v, (int, np.integer)) for v in vals_object.flat):
+                        vals_array = np.array([int(v) for v in vals_object.flat], dtype=object).reshape(vals_object.shape)
+                vals = vals_array
             return vals
         else:
             return func(*args, **kwargs)
@@ -54,6 +60,7 @@ def array_support(func):
 #%%
 @array_support
 def twos_complement_repr(val, nbits):
+    val = int(val)
     if val < 0:
         val = (1 << nbits) + val
     else:
@@ -390,7 +397,7 @@ def min_pow2(x, n_frac=0):
 def binary_invert(x, n_word=None):
     if n_word is None:
         n_word = bits_len(x)
-    return int((1 << n_word) - 1 - x)
+    return int((1 << n_word) - 1 - int(x))
 
 @array_support
 def binary_and(x, y, n_word=None):
